@@ -72,13 +72,22 @@ def _one(item, workers):
 
 
 def main(props, jobs=4):
+    import sys
+    try:
+        sys.stdout.reconfigure(line_buffering=True)   # progress is visible when the output goes to a file
+    except Exception:
+        pass
     items = _patches(set(props))
     if not items:
         print("no mutants found")
         return 0
     workers = max(2, env.NCPU // jobs)
     with ThreadPoolExecutor(max_workers=jobs) as ex:
-        results = list(ex.map(lambda it: _one(it, workers), items))
+        def one(it):
+            r = _one(it, workers)
+            print("  .. %-9s %-45s %s" % (r["property"], r["mutant"], r["result"]))
+            return r
+        results = list(ex.map(one, items))
     # evidence of the real checks was written with VERIF_REPO set: it is not evidence about /repo, so do not keep it
     missed = [r for r in results if r["result"] != "detected"]
     for r in results:
